@@ -60,14 +60,15 @@ Definition meets (r : outcome val) (e : expect) : bool :=
   | _, _ => false
   end.
 
-(* type_var: X1 when n = 1 (the statement says nothing about n <> 1 on a parametrised instance);
-   AssertionError where type_vars has to raise it *)
+(* type_var: X1 when n = 1; with several parameters it is documented to refuse ("Use this for convenience if
+   your class has only one type parameter", an assert): AssertionError, never one of the arguments;
+   AssertionError also where type_vars has to raise it *)
 Inductive expect1 := Exp1Val (x : val) | Exp1Assertion | Exp1Nothing.
 
 Definition spec_type_var (s : shape) : expect1 :=
   match spec_type_vars s with
   | ExpDict [(_, x)] => Exp1Val x
-  | ExpDict _ => Exp1Nothing
+  | ExpDict _ => Exp1Assertion
   | ExpAssertion => Exp1Assertion
   | ExpNothing => Exp1Nothing
   end.
